@@ -31,6 +31,8 @@ Definition emit (idx : nat) (v : view) : T unit := (Ok tt, [IApply idx v]).
 
 Section Parse.
 Variable m : mem.
+(* sub_string; a parameter only for the D32 refutation, the model instantiates it with StrModel.sub_string *)
+Variable sub_string : view -> N -> N -> R view.
 
 (* the lambda try_apply_arg *)
 Definition try_apply (arg : view) (idx : nat) (o : copt) : T bool :=
@@ -97,5 +99,32 @@ Fixpoint opt_table (tbl : list (list byte * bool)) (id : nat) : list copt :=
 Definition run_mem (tbl : list (list byte * bool)) (cl : list byte) : mem :=
   (0%nat, cl) :: opt_mem (map fst tbl) 1.
 (* null_cl = true: parse_arguments(string_view{}, ...) *)
-Definition run_cmdline (tbl : list (list byte * bool)) (cl : list byte) (null_cl : bool) : T unit :=
-  parse_arguments (run_mem tbl cl) (if null_cl then VNull else V 0 0 (N.of_nat (length cl))) (opt_table tbl 1).
+Definition run_cmdline_with (sub : view -> N -> N -> R view) (tbl : list (list byte * bool)) (cl : list byte) (null_cl : bool) : T unit :=
+  parse_arguments (run_mem tbl cl) sub (if null_cl then VNull else V 0 0 (N.of_nat (length cl))) (opt_table tbl 1).
+Definition run_cmdline := run_cmdline_with sub_string.
+
+(* ---- the option helpers of cmdline.hpp as targets: what the callbacks of store_true/store_false,
+   as_string_view and as_number<T> leave in their targets (they write nowhere else) *)
+Inductive okind := KCustom | KStore (b : bool) | KView | KNum (t : ity).
+Inductive tval := TCustom | TBool (b : bool) | TView (v : view) | TNum (n : N).
+Definition target0 (k : okind) : tval :=
+  match k with KCustom => TCustom | KStore b => TBool (negb b) | KView => TView VNull | KNum _ => TNum 7 end.
+Definition target_apply (m : mem) (k : okind) (old : tval) (v : view) : tval :=
+  match k with
+  | KCustom => old
+  | KStore b => TBool b
+  | KView => TView v
+  | KNum t => match to_number m t v with (Ok (Some n), _) => TNum n | _ => old end   (* if(n) *target = n.value() *)
+  end.
+Fixpoint upd_target (m : mem) (kinds : list okind) (tg : list tval) (idx : nat) (v : view) : list tval :=
+  match kinds, tg, idx with
+  | k :: _, t :: tr, O => target_apply m k t v :: tr
+  | _ :: kr, t :: tr, S j => t :: upd_target m kr tr j v
+  | _, _, _ => tg
+  end.
+Definition targets (m : mem) (kinds : list okind) (items : list item) : list tval :=
+  fold_left (fun tg it => match it with IApply idx v => upd_target m kinds tg idx v | IRead _ => tg end)
+            items (map target0 kinds).
+Definition run_cmdline_targets (tbl : list (list byte * bool)) (kinds : list okind) (cl : list byte) (null_cl : bool)
+  : T unit * list tval :=
+  let r := run_cmdline tbl cl null_cl in (r, targets (run_mem tbl cl) kinds (snd r)).
